@@ -165,6 +165,9 @@ struct BatchResult {
     abort_msgs: Vec<Option<String>>,  // panic message seen on the child's stderr for that abort
     valgrind_errors: u64,
     valgrind_log: String,
+    /// leak accounting (valgrind runs that ended normally): histories covered, blocks definitely lost,
+    /// blocks expected lost (= alloc_string calls: each leaks its 24-byte String header, nothing else may leak)
+    leak: (u64, u64, u64),
 }
 
 fn panic_message(stderr: &str) -> String {
@@ -194,6 +197,7 @@ fn run_batch(dir: &Path, tag: &str, files: &[String], sources: &[String], hs: &[
     let hs_json: Vec<Value> = hs.iter().map(|h| Value::Array(h.iter().map(call_json).collect())).collect();
     fs::write(&inp, serde_json::to_string(&json!({"files": files, "sources": sources, "histories": hs_json})).unwrap()).unwrap();
     let mut log = String::new();     // all attempts' logs, concatenated
+    let mut leak = (0u64, 0u64, 0u64);
     let mut attempt = 0usize;
     while start < hs.len() {
         // one output file per attempt, so that finding where an attempt died costs O(that attempt)
@@ -202,7 +206,8 @@ fn run_batch(dir: &Path, tag: &str, files: &[String], sources: &[String], hs: &[
         let _ = fs::remove_file(&outp);
         let mut cmd = if valgrind {
             let mut c = Command::new("valgrind");
-            c.args(["--quiet", "--error-exitcode=97", "--leak-check=no", "--num-callers=12"]).arg(&exe);
+            c.args(["--error-exitcode=97", "--leak-check=full", "--show-leak-kinds=definite", "--errors-for-leak-kinds=none",
+                    "--num-callers=12"]).arg(&exe);
             c
         } else { Command::new(&exe) };
         let outc = cmd.arg("child").arg(&inp).arg(&outp).arg(start.to_string()).env("RUST_BACKTRACE", "0")
@@ -231,7 +236,19 @@ fn run_batch(dir: &Path, tag: &str, files: &[String], sources: &[String], hs: &[
             }
         }
         log.push_str(&part);
-        if last_done.map(|d| d + 1 == hs.len()).unwrap_or(false) { break; }
+        if last_done.map(|d| d + 1 == hs.len()).unwrap_or(false) {
+            if valgrind && outc.status.success() {
+                // this attempt ran histories start.. to the end and exited normally (all threads joined, so every
+                // remaining task was dropped): the only blocks that may be lost are alloc_string's String headers
+                let lost = stderr.lines().find(|l| l.contains("definitely lost:")).and_then(|l| {
+                    let t: Vec<&str> = l.split_whitespace().collect();
+                    t.iter().position(|w| *w == "in").and_then(|p| t.get(p + 1)).and_then(|w| w.replace(',', "").parse::<u64>().ok())
+                }).unwrap_or(0);
+                let expected: u64 = hs[start..].iter().map(|h| h.iter().filter(|c| matches!(c, Call::Initiate(..) | Call::Load(..))).count() as u64 * 2).sum();
+                leak = ((hs.len() - start) as u64, lost, expected);
+            }
+            break;
+        }
         // aborted inside history k
         let k = match (last_begun, last_done) {
             (Some(b), Some(d)) if b > d => b,
@@ -275,7 +292,7 @@ fn run_batch(dir: &Path, tag: &str, files: &[String], sources: &[String], hs: &[
         }
     }
     let _ = fs::remove_file(&inp);
-    BatchResult { hist, resps, abort_msgs, valgrind_errors: vg_errors, valgrind_log: vg_log }
+    BatchResult { hist, resps, abort_msgs, valgrind_errors: vg_errors, valgrind_log: vg_log, leak }
 }
 
 /// Splits the histories round-robin over `par` concurrently running children (so that the histories
@@ -294,13 +311,14 @@ fn run_parallel(dir: &Path, tag: &str, files: &[String], sources: &[String], hs:
         for h in hds { parts.push(h.join().unwrap()); }
     });
     let mut all = BatchResult { hist: vec![vec![]; hs.len()], resps: vec![vec![]; hs.len()], abort_msgs: vec![None; hs.len()],
-                                valgrind_errors: 0, valgrind_log: String::new() };
+                                valgrind_errors: 0, valgrind_log: String::new(), leak: (0, 0, 0) };
     for (j, p) in parts.into_iter().enumerate() {
         for (k, ((h, r), a)) in p.hist.into_iter().zip(p.resps.into_iter()).zip(p.abort_msgs.into_iter()).enumerate() {
             let i = k * par + j;
             all.hist[i] = h; all.resps[i] = r; all.abort_msgs[i] = a;
         }
         all.valgrind_errors += p.valgrind_errors; all.valgrind_log.push_str(&p.valgrind_log);
+        all.leak = (all.leak.0 + p.leak.0, all.leak.1 + p.leak.1, all.leak.2 + p.leak.2);
     }
     all
 }
@@ -641,7 +659,13 @@ fn main() {
         for k in 0..n_rnd_vg { sample.push(rnd[k * rnd.len() / n_rnd_vg].clone()); }
         let r = run_parallel(&scratch, "vg", &files, &sources, &sample, true, par);
         vg = json!({"histories": sample.len(), "calls": sample.iter().map(|h| h.len()).sum::<usize>(),
-                    "memcheck_errors": r.valgrind_errors, "tool": "valgrind memcheck, --leak-check=no"});
+                    "memcheck_errors": r.valgrind_errors, "tool": "valgrind memcheck, --leak-check=full",
+                    "leak_accounting": {"histories_in_runs_that_exited_normally": r.leak.0, "blocks_definitely_lost": r.leak.1,
+                                        "alloc_string_calls_(each_leaks_its_String_header)": r.leak.2}});
+        if r.leak.1 != r.leak.2 {
+            direct_failures.push(json!({"what": format!("valgrind leak check: {} blocks definitely lost after all tasks were dropped, but {} alloc_string calls were made (each leaks one String header; no source buffer may be lost or freed twice)", r.leak.1, r.leak.2),
+                "classes": ["memcheck-leak-mismatch"]}));
+        }
         if r.valgrind_errors > 0 {
             // attribute: shortest histories first, one valgrind process each, stop at the first hit
             let mut order: Vec<usize> = (0..sample.len()).collect();
